@@ -23,6 +23,9 @@ pub struct ServerParams {
     pub cc_kind: CcKind,
     pub selected_protocol: u32,
     pub neg_flags: u8,
+    /// a server that goes on with a client requiring restricted admin mode announces RESTRICTED_ADMIN_MODE_SUPPORTED (0x08,
+    /// MS-RDPBCGR 2.2.1.2.1) whatever `neg_flags` holds; false = send `neg_flags` as they are (hostile servers of C02)
+    pub honour_restricted_admin: bool,
     pub neg_length: u16,
     pub cc_src_ref: u16,
     pub cert: usize,
@@ -70,6 +73,7 @@ impl ServerParams {
             cc_kind: CcKind::Response,
             selected_protocol: selected,
             neg_flags: 0x1f & 0x0b,
+            honour_restricted_admin: true,
             neg_length: 8,
             cc_src_ref: 0x1234,
             cert: 0,
